@@ -5,8 +5,9 @@ package types
 
 // What an accepted parameter set guarantees (C16). paramsOK is defined next to the keeper contracts; every
 // keeper function that consumes parameters assumes exactly this predicate and nothing more about them.
+// (C01 too: the price and share formulas are only sound for fees in their valid ranges)
 //@ func Params.Validate
-//@   property C16
+//@   property C01, C16
 //@   returns err
 //@   ensures valid: err == nil ==> paramsOK(p)
 //@ end
